@@ -423,6 +423,16 @@ class SReal:
             return f'S({self.n})'
         return f'S(({self.n})/({self.d}))'
 
+    def __format__(self, spec):
+        cv = float(self.const()) if self.is_const() else const_value(self)
+        if cv is None:
+            raise Unsupported('formatting a symbolic real')
+        return format(cv, spec)
+
+    def __str__(self):
+        cv = float(self.const()) if self.is_const() else const_value(self)
+        return repr(self) if cv is None else str(cv)
+
     def __float__(self):
         if self.is_const():
             return float(self.const())
